@@ -137,5 +137,8 @@ def run(chk, replay=None):
     if replay is None:
         extra += [(object_history(chk.rng), None, "object-history") for _ in range(40 if chk.tier == "quick" else 500)]
         extra += [(chain_history(chk.rng), None, "chain-history") for _ in range(25 if chk.tier == "quick" else 300)]
+        # what a call yields when its body failed and was handled by its own handler: the handler's 输出 value, 空 without one
+        from props import c09
+        extra += [(c09.handler_program(chk.rng), None, "handled-call-value") for _ in range(30 if chk.tier == "quick" else 300)]
     semprop.run_property(chk, "C08", "c08", PROFILES, 120, 1500, replay=replay, extra_programs=extra,
                          what="method call / object semantics differ from the documented behaviour")
